@@ -259,8 +259,10 @@ def run_case(case, tier="quick"):
             return dict(base, status="violation", bucket="answer_not_a_number", detail={"bif": text, "answer": m.group(1)})
         if val.free_symbols:
             return dict(base, status="violation", bucket="answer_is_a_formula", nontrivial=True, detail={"bif": text, "query": args.exact_inference or args.sample_time_until, "answer": str(val), "truth": L.fs(truth)})
-        val = sympy.nsimplify(val) if not val.is_Rational else val
-        ok = val.is_Rational and Fraction(int(val.p), int(val.q)) == truth
+        try:
+            ok = common.exact_fraction(val) == truth
+        except common.NotRational:
+            ok = False
         if not ok:
             return dict(base, status="violation", bucket=f"query_answer:{case['what']}", nontrivial=True,
                         detail={"bif": text, "query": args.exact_inference or args.sample_time_until, "answer": str(val), "truth": L.fs(truth)})
